@@ -86,6 +86,11 @@ CLAIMED = {
    note='Trusted: Coq kernel + vm_compute; translator and units hook; exponents are rationals in the model (complex/irrational exponents outside it, skipped and counted).',
    technique='Coq proof over unit-expression trees against an independent dimension typing + differential correspondence',
    ref='DESIGN.md §8 C05, notes/C05.md'),
+ 'C15': dict(
+   text='Partial by nature (libm is an oracle). 51 theorems (coq/Properties/C15.v). Full strength for every libm: sin/cos at ALL multiples of pi/6 and pi/2 of any size and sign are the true values and unmarked (C15_sin_special, C15_cos_special, via Coq Reals; the 2^64 cut-off of the original code refuted and repaired by fix 06c1b45), a result flagged exact is the true value, the only unmarked bridge results are sin 0, ln 1, exp 0; x^0 = exact 1 (fix d3c0150), x^1, 1^x; the rational fend uses for pi is within 1e-23 of PI and e within 1e-18 (interval); angle units convert exactly (pi pattern); the f64 bridge: from_f64 is within 2^-64 below 2^64, exact above, an error on non-finite values (fix d752faf; the saturating cast of the original refuted: sinh 46 = 2^64), soft-float rounding within 2^-53, into_f64 within 2^-50 for one-limb operands; integer and rational root bisection brackets. Conditional (premise on libm at the consulted point, never an axiom): the 1e-9 accuracy bound for sin, cos, atan. Refuted in general and listed as open findings: accuracy next to singular points (acos(1-1e-17)), irrational exponents unsupported. Tie: L1 bit/limb-exact against hooks with the platform libm answering the model\'s queries; L2 digits of f(x) to 15 dp for 16 functions compared with per-point Coq lemmas certified by interval (about 750 per quick run; certified test oracles, not the universal theorem), special points to 100 pi, domain edges, angle units.',
+   note='Axioms (standard library only, allow-listed by name for C15 alone): ClassicalDedekindReals.sig_not_dec, sig_forall_dec, FunctionalExtensionality.functional_extensionality_dep, Classical_Prop.classic, and the PrimInt63 / Uint63 primitives and their specification axioms used by the interval tactic. Trusted: Coq kernel, Coquelicot, Interval, Flocq; libm; extraction of the rational part only (nothing mentioning R is extracted).',
+   technique='Coq proof over Reals (special points, constants by interval arithmetic) + soft-float bridge model + per-point certified oracles',
+   ref='DESIGN.md §8 C15, notes/C15.md'),
  'C06': dict(
    text='Partial by nature. Proved (coq/Properties/C06.v): panic-freedom of the modelled functions reachable from evaluate/preview/inline (JSON escaper and inline JSON for all Unicode text, superscript-exponent accumulation for digit strings of any length in checked and unchecked builds, the i^y selector); the other areas add their own no-panic theorems in their property files. Observed, not proved: everything else, by crash probes on the default build (feature off) in debug (overflow checks) and release profiles over 48 context configurations: suite+manual corpus read from /repo, mutations, token soup, every typed prefix, bounded nesting ramps. Native stack exhaustion is reachable (two open known findings).',
    note='Trusted: Coq kernel; extraction+driver; harness_plain; 8 MiB stack / 4 GiB address-space limits of the probe workers. Hangs and >=128 MiB allocation failures are counted as resource exhaustion (C07), not crashes. Models tied by correspondence (superscripts vs evaluate).',
